@@ -88,6 +88,25 @@ class Vals(dict):
         raise Missing(key)
 
 
+class _Opaque:
+    """Stands for a random value when looking for *constant* sub-expressions: any use raises Missing."""
+
+    def _use(self, *a, **k):
+        raise Missing("opaque")
+
+    __getattr__ = __getitem__ = __iter__ = __len__ = __call__ = __index__ = __float__ = __int__ = _use
+    __neg__ = __pos__ = __abs__ = __round__ = __bool__ = _use
+    for _n in ("add", "sub", "mul", "truediv", "floordiv", "mod", "divmod", "pow", "lt", "le", "gt", "ge"):
+        locals()[f"__{_n}__"] = _use
+        locals()[f"__r{_n}__"] = _use
+    del _n
+
+
+class OpaqueVals(dict):
+    def __missing__(self, key):
+        return _Opaque()
+
+
 def _real(v):
     return isinstance(v, (int, float)) and not isinstance(v, bool) and not (isinstance(v, float) and math.isnan(v))
 
@@ -96,6 +115,47 @@ def _all_real(v):
     if isinstance(v, (tuple, list)):
         return all(_all_real(x) for x in v)
     return _real(v)
+
+
+def _isnumpy(v):
+    return type(v).__module__ == "numpy"
+
+
+def _nonfinite(v):
+    v = G._denumpy(v)
+    if isinstance(v, complex):
+        return True
+    if isinstance(v, float):
+        return math.isnan(v) or math.isinf(v)
+    if isinstance(v, (tuple, list)):
+        return any(_nonfinite(x) for x in v)
+    return False
+
+
+def _has_complex(v):
+    v = G._denumpy(v)
+    if isinstance(v, complex):
+        return True
+    if isinstance(v, (tuple, list)):
+        return any(_has_complex(x) for x in v)
+    if isinstance(v, dict):
+        return any(_has_complex(x) for x in v.values())
+    if isinstance(v, G.PVec):
+        return any(_has_complex(x) for x in v)
+    return False
+
+
+ANGLE_ATTRS = ("yaw", "pitch", "roll")
+
+
+def same_angles(exp, act):
+    """Euler angles agree modulo 2 pi."""
+    exp, act = G._denumpy(exp), G._denumpy(act)
+    if isinstance(exp, (tuple, list)) and isinstance(act, (tuple, list)) and len(exp) == len(act):
+        return next((r for r in (same_angles(a, b) for a, b in zip(exp, act)) if r), None)
+    if _real(exp) and _real(act):
+        return None if abs(math.remainder(exp - act, math.tau)) <= G.GEO else f"angle {exp!r} != {act!r}"
+    return G.same(exp, act, G.GEO)
 
 
 GEOMETRIC = {"distanceTo", "norm", "dot", "angleTo", "rotatedBy", "offsetRotated", "localAnglesFor"}
@@ -142,6 +202,15 @@ def classify_construct(e, tree, where):
     for en, frag in EXPECTED_REFUSALS:
         if name == en and frag in msg:
             return ("refused", "literal-container-indexed-by-random-value")
+    # a constant sub-expression on which plain Python raises the same exception
+    for m in G.walk(tree):
+        try:
+            G.pyeval(m, OpaqueVals())
+        except Missing:
+            continue
+        except Exception as e2:
+            if type(e2) is type(e):
+                return ("refused", "constant-subexpression-raises-in-python-too")
     # blame the lowest node whose construction fails
     culprit = tree
     for m in G.walk(tree):
@@ -228,6 +297,8 @@ def check_api(tree, res):
         return ("ok", subs, None)
 
     rootvals = set()
+    nonreal0 = res["excluded_nonreal_parameter"] + res["unjudged_numpy_degenerate"]
+    complex_seen = False
     seen_violation = set()
     py_raises = 0
     n_exec = 0
@@ -244,7 +315,9 @@ def check_api(tree, res):
                     res["violations"].append(out)
             if status == "ok":
                 try:
-                    rootvals.add(repr(G.to_plain(subs[rootobj])))
+                    rv = G.to_plain(subs[rootobj])
+                    rootvals.add(repr(rv))
+                    complex_seen = complex_seen or _has_complex(rv)
                 except Exception:
                     pass
         if stats.capped:
@@ -253,7 +326,8 @@ def check_api(tree, res):
     res["outcomes_python_raises"] += py_raises
     if len(rootvals) >= 2:
         res["nontrivial"] += 1
-    return {"py_raises": py_raises > 0, "execs": n_exec}
+    odd = res["excluded_nonreal_parameter"] + res["unjudged_numpy_degenerate"] > nonreal0 or complex_seen
+    return {"py_raises": py_raises > 0 or odd, "execs": n_exec}
 
 
 def judge_api(tree, B, objs, judged, supports, leaf_items, status, subs, exc, res):
@@ -278,8 +352,10 @@ def judge_api(tree, B, objs, judged, supports, leaf_items, status, subs, exc, re
 
     # nodes in post order: every sampled node must equal the Python operation on its operands
     first_py_exc = None
+    tainted = False
+    numpy_degenerate = False
     for n in G.walk(tree):
-        if n[0] in ("c", "L"):
+        if n[0] in ("c", "k", "L"):
             continue
         got = [v for m, o, v in sampled if m is n]
         if n[0] == "M":
@@ -309,6 +385,15 @@ def judge_api(tree, B, objs, judged, supports, leaf_items, status, subs, exc, re
                 return (f"member:{G.nodekey(n)}", f"{G.render_expr(tree)}: value of {G.render_derived(n)} {bad}; {desc_in()}", {"route": "api"})
             res["membership_checked"] += 1
             continue
+        geo = node_tol(n) == G.GEO or n[0] in ("meth", "vec", "euler")
+        try:
+            kv = [G.pyeval(c, vals, known) for c in G.children(n)]
+        except Exception:
+            kv = []
+        if geo and any(_has_complex(v) for v in kv):
+            res["excluded_nonreal_parameter"] += 1  # complex number as a geometric operand: ill-typed
+            tainted = True
+            continue
         try:
             exp = G.pyeval(n, vals, known, top=True)
         except Missing:
@@ -322,6 +407,8 @@ def judge_api(tree, B, objs, judged, supports, leaf_items, status, subs, exc, re
                 first_py_exc = (n, e)
             continue
         if not got:
+            if n[0] == "bin" and _nonfinite(exp) and any(_isnumpy(v) for v in kv):
+                numpy_degenerate = True
             continue
         if n[0] == "bin":  # identity-element forms that got judged (whatever the verdict)
             form = identity_form(n)
@@ -334,21 +421,31 @@ def judge_api(tree, B, objs, judged, supports, leaf_items, status, subs, exc, re
                     except Exception:
                         pass
                 res["identity_forms"][form] += 1
-        bad = G.same(exp, got[0], node_tol(n))
+        if (n[0] == "attr" and n[1] in ANGLE_ATTRS) or (n[0] == "meth" and n[1] == "localAnglesFor"):
+            bad = same_angles(exp, got[0])
+        else:
+            bad = G.same(exp, got[0], node_tol(n))
+        if bad and n[0] == "bin" and any(_isnumpy(v) for v in kv) and (_nonfinite(exp) or _nonfinite(got[0])):
+            # inf / nan / complex result with a numpy scalar operand: Python's answer depends on the
+            # reflected-operand priority of the numpy subclass; not judged
+            res["unjudged_numpy_degenerate"] += 1
+            known.pop(id(n), None)
+            continue
         if bad:
             sig = value_signature(n, got[0])
             return (sig, f"{G.render_expr(tree)}: node {G.render_expr(n)} sampled as {got[0]!r}, plain Python gives {exp!r} ({bad}); {desc_in()}", {"route": "api"})
         res["node_values_checked"] += 1
 
     if status == "raise":
-        if first_py_exc is not None and type(first_py_exc[1]) is type(exc):
-            return "pyraise"
         if first_py_exc is not None:
-            return (
-                f"raise-mismatch:{type(exc).__name__}-vs-{type(first_py_exc[1]).__name__}:{G.nodekey(first_py_exc[0])}",
-                f"{G.render_expr(tree)}: sampling raises {exc!r}, plain Python raises {first_py_exc[1]!r}; {desc_in()}",
-                {"route": "api"},
-            )
+            if type(first_py_exc[1]) is not type(exc):
+                res["both_raise_different_exception_type"] += 1
+            return "pyraise"
+        if tainted:
+            return None
+        if numpy_degenerate and isinstance(exc, (ZeroDivisionError, OverflowError)):
+            res["unjudged_numpy_degenerate"] += 1
+            return None
         culprit = tree
         for n in G.walk(tree):
             o = objs.get(id(n))
@@ -362,6 +459,11 @@ def judge_api(tree, B, objs, judged, supports, leaf_items, status, subs, exc, re
         )
     if status == "reject":
         return (f"unexpected-rejection:{G.nodekey(tree)}", f"{G.render_expr(tree)}: sample rejected ({exc}); {desc_in()}", {"route": "api"})
+    if first_py_exc is not None and objs.get(id(first_py_exc[0])) is not None and objs[id(first_py_exc[0])] not in subs:
+        # the raising sub-expression was never sampled (it sits in a container that is not sampled:
+        # reported at the outcomes where Python yields a value)
+        res["unjudged_unsampled_subexpression"] += 1
+        return None
     if first_py_exc is not None:
         n, e = first_py_exc
         return (
@@ -881,6 +983,10 @@ REFINE = [
     (r"construct-raises:TypeError:.*", r"'NoneType' object is not iterable", "construct-raises:TypeError:repr-of-unweighted-DiscreteRange"),
     (r"sample-raises:AttributeError:.*", r"has no attribute '__r[a-z]+__'", "sample-raises:AttributeError:operand-type-lacks-reflected-operator"),
     (r"construct-raises:RandomControlFlowError:vecexpr\.(distanceTo|angleTo)\(.*", None, "construct-raises:RandomControlFlowError:scalar-method-of-vector-with-random-coordinates"),
+    (r"sample-raises:RandomControlFlowError:vec\(.*", r"\)\.(distanceTo|angleTo)\(", "sample-raises:RandomControlFlowError:scalar-method-of-vector-with-random-coordinates"),
+    (r"value:vecexpr\.(dot|distanceTo|angleTo)\(.*\):unsampled-object-in-result", None, "value:unsampled-result:scalar-method-of-vector-with-random-coordinates"),
+    (r"support:.*:excludes-value", r"hypot\(|\.norm\(\)", "support:hypot-treated-as-monotonic"),
+    (r"python-raises-scenic-yields:TypeError:\(expr//1\)", None, "value:floordiv-by-1-not-floored"),
     (r"construct-raises:TypeError:.*=.*", r"handler\(\) got an unexpected keyword argument", "construct-raises:TypeError:keyword-operand-of-lifted-vector-method"),
     (r"value:.*", r"NotImplemented \(NotImplementedType\)", "value:NotImplemented-no-reflected-operator-fallback"),
 ]
